@@ -22,7 +22,7 @@ Proof.
     destruct (beqs (method r) OPTIONS);
     destruct (get_header r Hd_ACCESS_CONTROL_REQUEST_METHOD); destruct (get_header r Hd_ACCESS_CONTROL_REQUEST_HEADERS); names_tac.
   - destruct (get_header r Hd_ORIGIN); [|apply Forall_nil].
-    destruct (negb (contains o (hvalue h0))); [apply Forall_nil|].
+    match goal with |- names_in _ (if ?c then _ else _) => destruct c end; [apply Forall_nil|].
     destruct (beqs cr TRUE); destruct (beqs (method r) OPTIONS); names_tac.
 Qed.
 
@@ -78,7 +78,7 @@ Lemma kh_multi r rs0 : keeps_headers rs0 (multipart_controller r rs0). Proof. un
 Lemma shape_same cfg r rs0 x : shape cfg r rs0 -> rs_headers x = rs_headers rs0 -> shape cfg r x.
 Proof. intros [ex [E N]] H. exists ex. rewrite H. auto. Qed.
 
-Lemma shape_execute lg g cfg fs r rs : app_execute_gen lg g cfg fs r = SOk rs -> shape cfg r rs.
+Lemma shape_execute lg cfg fs r rs : app_execute_gen lg cfg fs r = SOk rs -> shape cfg r rs.
 Proof.
   unfold app_execute_gen. set (rs0 := mkResp 501 (reason 501) (default_headers cfg r) []).
   assert (S0 : shape cfg r rs0) by (exists []; split; [simpl; rewrite app_nil_r; reflexivity|apply Forall_nil]).
@@ -88,7 +88,8 @@ Proof.
   repeat match type of Hx with
   | (if ?c then _ else _) = _ => destruct c
   end; try discriminate;
-  try (inversion Hx; subst; apply shape_asset; exact S0).
+  try (inversion Hx; subst; apply shape_asset; exact S0);
+  try (inversion Hx; subst; eapply shape_same; [exact S0|reflexivity]).
   all: destruct (upload_controller cfg r rs0); try discriminate; try (inversion Hx; subst; eapply shape_same; eauto; fail).
   all: destruct (urlenc_controller r rs0); try discriminate; try (inversion Hx; subst; eapply shape_same; eauto; fail).
   all: destruct (formget_controller r rs0); try discriminate; try (inversion Hx; subst; eapply shape_same; eauto; fail).
@@ -97,9 +98,9 @@ Proof.
   | (if ?c then _ else _) = _ => destruct c
   end; try discriminate;
   try (inversion Hx; subst; apply shape_asset; exact S0).
-  all: try (destruct (is_matching g fs r) as [[|]| |]; try discriminate;
+  all: try (destruct (is_matching fs r) as [[|]| |]; try discriminate;
        try (inversion Hx; subst; apply shape_asset; exact S0)).
-  all: unfold static_process, static_process_legacy in Hx; destruct (process_static g fs r) as [[|c l]|st|]; try discriminate;
+  all: unfold static_process, static_process_legacy in Hx; destruct (process_static fs r) as [[|c l]|st|]; try discriminate;
        try (inversion Hx; subst; first [exact S0 | exists []; split; [simpl; rewrite app_nil_r; reflexivity|apply Forall_nil]]).
   all: try (destruct (path_or_panic (uri r)) as [P| |]; try discriminate; inversion Hx; subst; cbn [rs_headers];
        destruct (can_open fs (cwd_str fs ++ P)); eexists; (split; [reflexivity|names_tac]); fail).
@@ -107,16 +108,11 @@ Proof.
        destruct (can_open fs (cwd_str fs ++ uri r)); eexists; (split; [reflexivity|names_tac]).
 Qed.
 
-Theorem C10_each_exactly_once lg g cfg fs input rs raw :
-  process_gen lg g cfg fs input = Wrote rs raw ->
+Lemma required_of_shape cfg r rs : shape cfg r rs ->
   Forall (fun nv => count_name (fst nv) (all_headers rs) = 1%nat /\
                     In (H (fst nv) (snd nv)) (all_headers rs)) required.
 Proof.
-  unfold process_gen. intro Hp.
-  destruct (parse_request _) as [r| |]; try discriminate.
-  destruct (app_execute_gen lg g cfg fs r) as [rs'| |] eqn:Ex; try discriminate.
-  destruct (log_sum 0 (rs_ranges rs')); try discriminate. inversion Hp; subst rs' raw.
-  destruct (shape_execute _ _ _ _ _ _ Ex) as [extra [E Nx]].
+  intros [extra [E Nx]].
   unfold all_headers. rewrite E, default_split.
   pose proof (cors_names (cf_cors cfg) r) as Nc. pose proof (derived_names (rs_ranges rs)) as Nd.
   unfold required. repeat apply Forall_cons; try apply Forall_nil; cbn [fst snd]; (split;
@@ -126,4 +122,30 @@ Proof.
     rewrite (count_not_in extra_names _ _ Nd) by (vm_compute; reflexivity); vm_compute; reflexivity
   | rewrite !in_app_iff; left; left; right; unfold fixed_part; simpl; tauto ]).
 Qed.
-Print Assumptions C10_each_exactly_once.
+Lemma shape_bad_request cfg : shape cfg synthetic_request (bad_request_response cfg).
+Proof. exists []. split; [cbn [bad_request_response rs_headers]; rewrite app_nil_r; reflexivity|apply Forall_nil]. Qed.
+
+(* every response written by either entry point — including the 400 for unparseable input and for a failing handler *)
+Theorem C10_each_exactly_once lg cfg fs input rs raw ok :
+  process_gen lg cfg fs input = Wrote rs raw ok ->
+  Forall (fun nv => count_name (fst nv) (all_headers rs) = 1%nat /\
+                    In (H (fst nv) (snd nv)) (all_headers rs)) required.
+Proof.
+  unfold process_gen, process_with. intro Hp.
+  destruct (parse_request _) as [r| |]; try discriminate.
+  - destruct (app_execute_gen lg cfg fs r) as [rs'| |] eqn:Ex; try discriminate.
+    + inversion Hp; subst rs' raw ok. eapply required_of_shape, shape_execute, Ex.
+    + inversion Hp; subst. eapply required_of_shape, shape_bad_request.
+  - inversion Hp; subst. eapply required_of_shape, shape_bad_request.
+Qed.
+(* the same for an arbitrary application handler that reports an error: the 400 carries the headers *)
+Theorem C10_handler_error cfg app input rs raw ok :
+  (forall r, exists st, app r = SErr st) -> process_with app cfg input = Wrote rs raw ok ->
+  Forall (fun nv => count_name (fst nv) (all_headers rs) = 1%nat /\
+                    In (H (fst nv) (snd nv)) (all_headers rs)) required.
+Proof.
+  intros Ha. unfold process_with. intro Hp.
+  destruct (parse_request _) as [r| |]; try discriminate.
+  - destruct (Ha r) as [st E]. rewrite E in Hp. inversion Hp; subst. eapply required_of_shape, shape_bad_request.
+  - inversion Hp; subst. eapply required_of_shape, shape_bad_request.
+Qed.
